@@ -929,24 +929,19 @@ func (f *Field) SetBit(rowID, colID uint64, t *time.Time) (changed bool, err err
 func (f *Field) ClearBit(rowID, colID uint64) (changed bool, err error) {
 	viewName := viewStandard
 
-	// Retrieve view. Exit if it doesn't exist.
+	// Retrieve the standard view. A time field created without one has
+	// only time views.
 	f.mu.RLock()
 	view, present := f.viewMap[viewName]
-	viewN := len(f.viewMap)
 	f.mu.RUnlock()
-	if !present {
-		return changed, errors.Wrap(err, "clearing missing view")
-
-	}
 
 	// Clear non-time bit.
-	if v, err := view.clearBit(rowID, colID); err != nil {
-		return changed, errors.Wrap(err, "clearing on view")
-	} else if v {
-		changed = v
-	}
-	if viewN == 1 { // assuming no time views
-		return changed, nil
+	if present {
+		if v, err := view.clearBit(rowID, colID); err != nil {
+			return changed, errors.Wrap(err, "clearing on view")
+		} else if v {
+			changed = v
+		}
 	}
 
 	// Clear the bit in every time view. The views a timestamp was written to
